@@ -1,17 +1,24 @@
 /-
   Property C06 — A partitioned (parallel) data set reads as the whole data set.
-  Only property theorems live here; helper lemmas are in FcProofs/Lemmas/{Merge,MergeStructured}.lean.
+  Only property theorems live here; helper lemmas are in
+  FcProofs/Lemmas/{Merge,MergeStep,MergeStructured,MergeDecomposition,MergeDecomposition3,MergeRead,MergeHyp}.lean.
 
   Model:  `Fc.merge1`, `Fc.mergeAll`, `Fc.mapDuplicatePoints`, `Fc.mapExternal`, `Fc.filterExternal`
           (FcModel/Merge.lean — mesh/_transformations.py merge/_merge/…),
-          `Fc.mergeStructured`, `Fc.pieceEntityIndices`, `Fc.structuredDecomposition`
-          (FcModel/StructuredMerge.lean — StructuredFieldMerger, _get_structured_decomposition)
-  Spec:   `Fc.Spec.readsAsWhole`, `Fc.Spec.isPartition`, `Fc.Spec.wholeField`, `Fc.Spec.restrictField`
+          `Fc.C06.mergeStructured`, `pieceEntityIndices`, `structuredDecomposition`, `pvtkMergeField`,
+          `pvtrOrdinates`, `pvtiMesh`, `pvtsPoints`, `pvtkReadStructured`
+          (FcModel/StructuredMerge.lean — StructuredFieldMerger, _get_structured_decomposition,
+          _merge_structured and the three _make_structured_mesh of io/vtk/_pvtk_readers.py)
+  Spec:   `Fc.C06.Spec.readsAsWhole`, `isPartition`, `wholeField`, `restrictField`; for the structured
+          theorems `decompOk`, `meshedDirs`, `mergerOf`, `restrictLoc`, `pieceFile`, `wholeRead`, `wholeOk`
 -/
 import FcProofs.Lemmas.Merge
 import FcProofs.Lemmas.MergeStep
 import FcProofs.Lemmas.MergeStructured
 import FcProofs.Lemmas.MergeDecomposition
+import FcProofs.Lemmas.MergeDecomposition3
+import FcProofs.Lemmas.MergeRead
+import FcProofs.Lemmas.MergeHyp
 namespace Fc
 open Fc.C06 Fc.C06.Spec
 
@@ -161,6 +168,48 @@ theorem C06_unstructured_partial (srt : List (List Int) → List Nat) (hsrt : So
           · exact Or.inr ⟨g, hg', hgi⟩
       simp only [this]
 
+/-- **C06 (the driver's hypothesis is the theorems' hypothesis).**  `mergeHyp` is the decidable
+    hypothesis the driver evaluates on every correspondence case (every piece well-formed, without
+    coincident points, with complete cell data; all pieces of one space dimension and one field
+    schema).  It implies `PieceOk` — the hypothesis of `C06_merge_step_partial` /
+    `C06_unstructured_partial` — for every piece, with ONE dimension, ONE set of field names (those
+    of the first listed piece) and ONE entry size and numeric type per field name. -/
+theorem C06_hyp_sound (f0 : MeshFields) (rest : List MeshFields) (h : mergeHyp (f0 :: rest) = true) :
+    ∃ (rsC rsP : String → Nat) (dtC dtP : String → DType), ∀ f ∈ f0 :: rest,
+      PieceOk f f0.mesh.dim (dedupNames (f0.cellFields.map (·.name))) (f0.pointFields.map (·.name))
+        rsC rsP dtC dtP :=
+  ⟨_, _, _, _, mergeHyp_sound f0 rest h⟩
+
+/-- **C06 (unstructured, stated with the decidable hypothesis).**  `C06_unstructured_partial` with
+    `PieceOk` replaced by the Bool `mergeHyp` the driver prints (`hyp=1`): what the harness re-checks
+    at run time on every generated partition (hyp ∧ partition ∧ conforming ∧ ¬F3 ⇒ reads as the
+    whole) is this theorem.  Still `_partial`: `f3Class pieces = false` is necessary (finding F3). -/
+theorem C06_unstructured_hyp_partial (srt : List (List Int) → List Nat) (hsrt : SortsRows srt)
+    (whole f0 : MeshFields) (rest : List MeshFields)
+    (hyp : mergeHyp (f0 :: rest) = true)
+    (hconf : whole.mesh.points.Nodup)
+    (hcells : ∀ ct, (cellItemsOf whole (dedupNames (f0.cellFields.map (·.name))) ct).Perm
+      ((f0 :: rest).flatMap (cellItemsOf · (dedupNames (f0.cellFields.map (·.name))) ct)))
+    (hpts1 : ∀ f ∈ f0 :: rest, ∀ it ∈ pointItemsOf f (f0.pointFields.map (·.name)),
+      it ∈ pointItemsOf whole (f0.pointFields.map (·.name)))
+    (hpts2 : ∀ it ∈ pointItemsOf whole (f0.pointFields.map (·.name)),
+      ∃ f ∈ f0 :: rest, it ∈ pointItemsOf f (f0.pointFields.map (·.name)))
+    (hnew : f3Class (f0 :: rest) = false) :
+    ∃ (rsC rsP : String → Nat) (dtC dtP : String → DType) (m : MeshFields),
+      (∀ f ∈ f0 :: rest, PieceOk f f0.mesh.dim (dedupNames (f0.cellFields.map (·.name)))
+        (f0.pointFields.map (·.name)) rsC rsP dtC dtP) ∧
+      mergeAll srt (f0 :: rest) = some m ∧
+      (∀ ct, (cellItemsOf m (dedupNames (f0.cellFields.map (·.name))) ct).Perm
+        (cellItemsOf whole (dedupNames (f0.cellFields.map (·.name))) ct)) ∧
+      (pointItemsOf m (f0.pointFields.map (·.name))).Perm (pointItemsOf whole (f0.pointFields.map (·.name))) ∧
+      m.mesh.points.Nodup ∧
+      -- every field of the result has the entry size and numeric type it has in every piece
+      PieceOk m f0.mesh.dim (dedupNames (f0.cellFields.map (·.name))) (f0.pointFields.map (·.name))
+        rsC rsP dtC dtP := by
+  obtain ⟨m, hm, hc, hp, hnd, hok⟩ := C06_unstructured_partial srt hsrt _ _ _ _ _ _ _ whole (f0 :: rest)
+    (mergeHyp_sound f0 rest hyp) hconf hcells hpts1 hpts2 (List.cons_ne_nil _ _) hnew
+  exact ⟨_, _, _, _, m, mergeHyp_sound f0 rest hyp, hm, hc, hp, hnd, hok⟩
+
 /-- **C06 (structured index maps).**  For every dimension, every lattice shape and every axis-aligned
     decomposition `d` (cells per piece along each direction; every direction has at least one piece):
     * cells: the index lists `pieceEntityIndices` of all pieces together are a permutation of
@@ -192,64 +241,24 @@ theorem C06_structured_index (d : List (List Nat)) (hne : ∀ ns ∈ d, ns ≠ [
 theorem C06_structured_merge {α} (isPoint : Bool) (d : List (List Nat))
     (hne : isPoint = false ∨ ∀ ns ∈ d, ns ≠ []) (G : Nat → α) (cb : List Nat → List α) (zero : α)
     (hcb : ∀ loc ∈ locationsIn (piecesShape d), cb loc = restrictField isPoint d G loc) :
-    mergeStructured isPoint d cb zero = wholeField (prodShape (mergedShape isPoint d)) G := by
-  apply List.ext_getElem?
-  intro g
-  unfold mergeStructured wholeField
-  by_cases hg : g < prodShape (mergedShape isPoint d)
-  · have hcov : ∃ loc ∈ locationsIn (piecesShape d), g ∈ pieceEntityIndices isPoint d loc := by
-      rw [mergedShape_eq] at hg
-      obtain ⟨loc, it, hloc, hit, hflat⟩ := structured_cover (if isPoint then 1 else 0) d
-        (hne.elim (fun h => Or.inl (by simp [h])) Or.inr) g hg
-      exact ⟨loc, (mem_locationsIn _ _).mpr hloc,
-        (mem_pieceEntityIndices isPoint d loc g).mpr ⟨it, hit, hflat⟩⟩
-    have := (mergeLoop_agree G (pieceEntityIndices isPoint d) cb (locationsIn (piecesShape d)) hcb
-      (List.replicate (prodShape (mergedShape isPoint d)) zero) (fun _ => False)
-      (fun _ h => h.elim) g (Or.inr ⟨by simpa using hg, hcov⟩)).1
-    rw [this]
-    simp [hg]
-  · have hlen := mergeLoop_length (pieceEntityIndices isPoint d) cb (locationsIn (piecesShape d))
-      (List.replicate (prodShape (mergedShape isPoint d)) zero)
-    rw [List.getElem?_eq_none (by rw [hlen]; simpa using hg), List.getElem?_eq_none (by simpa using hg)]
+    mergeStructured isPoint d cb zero = wholeField (prodShape (mergedShape isPoint d)) G :=
+  mergeStructured_whole isPoint d hne G cb zero hcb
 
-/-
-  Full-strength statement (not proved; modelled as `Fc.structuredDecomposition`, tied to the code by
-  the correspondence on every enumerated lattice decomposition, listing order and extent shift):
-
-    theorem C06_decomposition  — for every axis-aligned decomposition `d3` of the three VTK directions,
-      every origin and every listing `L` that is a permutation of all piece locations,
-      `structuredDecomposition (L.map (pieceExtent d3 origin))` has `cellsPerAxis = d3`,
-      `pieceLocations = L` restricted to the meshed directions and `domainId loc` = position of `loc` in `L`.
-
-  Missing: the assembly of the three axes (`has_dimension` filter, `order[location] = i` with unique
-  locations).  Proved below: the per-axis core.
--/
-
-/-- **C06 (decomposition, one axis).**  An axis cut into pieces of `ns` cells (all positive), grid
-    starting at lattice index `o`; `bs` = the positions along this axis of the listed pieces, in ANY
-    order and with ANY repetitions (pieces of a 2-d / 3-d decomposition repeat every position), every
-    position occurring.  Then `np.unique` of the pieces' begins / ends are the begins / ends of
-    positions `0, 1, …` in order, their differences `sizes_along_axis` are exactly `ns`, and
-    `unique_extents_begin.index(begin)` of a piece is its true position. -/
-theorem C06_decomposition_axis_partial (o : Int) (ns : List Nat) (hpos : ∀ n ∈ ns, 0 < n)
+/-- **C06 (decomposition, one axis).**  An axis cut into pieces of `ns` cells (all positive — or a
+    flat direction, which has a single piece without cells), grid starting at lattice index `o`;
+    `bs` = the positions along this axis of the listed pieces, in ANY order and with ANY repetitions
+    (pieces of a 2-d / 3-d decomposition repeat every position), every position occurring.  Then
+    `np.unique` of the pieces' begins / ends are the begins / ends of positions `0, 1, …` in order,
+    their differences `sizes_along_axis` are exactly `ns`, and `unique_extents_begin.index(begin)` of
+    a piece is its true position.  (The three-axis assembly is `C06_decomposition`.) -/
+theorem C06_decomposition_axis (o : Int) (ns : List Nat) (hpos : ns.length ≤ 1 ∨ ∀ n ∈ ns, 0 < n)
     (bs : List Nat) (hbs : ∀ b, b ∈ bs ↔ b < ns.length) :
     List.zipWith (fun e b => e - b) (uniqueSorted (bs.map (axisEnd o ns)))
         (uniqueSorted (bs.map (axisBegin o ns))) = ns.map Int.ofNat ∧
     ∀ b, b < ns.length → (uniqueSorted (bs.map (axisBegin o ns))).idxOf (axisBegin o ns b) = b := by
   obtain ⟨hb, he⟩ := axis_recovery o ns hpos bs hbs
   rw [hb, he]
-  constructor
-  · rw [zipWith_map_same, ← range_map_getD]
-    apply List.map_congr_left
-    intro b hb'
-    simp only [List.mem_range] at hb'
-    simp only [axisEnd, axisBegin, sumList_take_succ ns b hb']
-    omega
-  · intro b hb'
-    apply idxOf_range_map _ _ _ hb'
-    intro a hab
-    have := sumList_take_strict ns hpos a b hab (by omega)
-    simp only [axisBegin]; omega
+  exact axis_sizes_idx o ns hpos
 
 /-- **C06 (rectilinear ordinates, one axis).**  An axis with ordinates `W` cut into pieces of `ns`
     cells (all positive, at least one piece): piece `b` carries `W[off_b … off_b + ns[b]]`.  Writing the
@@ -260,14 +269,14 @@ theorem C06_pvtr_line (W : List Int) (ns : List Nat) (hpos : ∀ n ∈ ns, 0 < n
     assembleLine (List.replicate W.length 0) (axisPieces W 0 ns) = some W :=
   assembleLineGo_spec W ns hpos hne _ 0 (by simp) (by simp) (by omega)
 
-/-- **C06 (rectilinear ordinates of the merged grid).**  Direction `dir` of the merged `.pvtr` grid:
+/-- **C06 (rectilinear ordinates, given the consulted pieces).**  Direction `dir` of the merged `.pvtr`
+    grid, for ANY decomposition object `sd`:
     * flat direction whose first listed piece carries the single ordinate `x`: the merged grid has `[x]`;
     * meshed direction with true ordinates `W`, cut into `ns`: if the pieces consulted through
-      `domain_id` are the pieces of this axis in order (this is what `_get_structured_decomposition`
-      provides — modelled and compared with the code on every decomposition, proved per axis in
-      `C06_decomposition_axis_partial`, not proved for the three-axis assembly: hence `_partial`),
-      the merged ordinates are exactly `W`. -/
-theorem C06_pvtr_ordinates_partial (sd : StructuredDecomposition) (pieceOrds : List (List (List Int)))
+      `domain_id` are the pieces of this axis in order, the merged ordinates are exactly `W`.
+    (Formerly `C06_pvtr_ordinates_partial`; its hypothesis is discharged for every axis-aligned
+    decomposition in `C06_pvtr_ordinates` below.) -/
+theorem C06_pvtr_ordinates_given_consulted (sd : StructuredDecomposition) (pieceOrds : List (List (List Int)))
     (dir : Nat) :
     (sd.isMeshed dir = false → sd.mergedExtents.getD dir 0 = 0 →
       ∀ x, ((pieceOrds.getD 0 []).getD dir []).take 1 = [x] → pvtrLine sd pieceOrds dir = some [x]) ∧
@@ -276,17 +285,112 @@ theorem C06_pvtr_ordinates_partial (sd : StructuredDecomposition) (pieceOrds : L
       ((List.range (sd.cellsPerAxis.getD dir []).length).mapM fun i => do
           let id ← sd.domainIdChecked (pvtrDomainLocation sd (sd.meshedDimensions.idxOf dir) i)
           pure ((pieceOrds.getD id []).getD dir [])) = some (axisPieces W 0 ns) →
-      pvtrLine sd pieceOrds dir = some W) := by
-  constructor
-  · intro hm hext x hx
-    unfold pvtrLine
-    simp only [hm, Bool.false_eq_true, if_false]
-    rw [hx, hext]
-    rfl
-  · intro hm W ns hpos hne hlen hext hcons
-    unfold pvtrLine
-    simp only [hm, if_true]
-    rw [hcons, hext]
-    exact C06_pvtr_line W ns hpos hne hlen
+      pvtrLine sd pieceOrds dir = some W) :=
+  ⟨fun hm hext x hx => pvtrLine_flat sd pieceOrds dir hm hext x hx,
+   fun hm W ns hpos hne hlen hext hcons => pvtrLine_meshed sd pieceOrds dir hm W ns hpos hne hlen hext hcons⟩
+
+/-- **C06 (decomposition recovery, three axes).**  `d3` = any axis-aligned decomposition of the three
+    VTK directions (`decompOk`: every direction is flat — the single entry 0 — or meshed with ≥ 1 piece
+    of ≥ 1 cell each; any lattice shape, any dimension 0–3, flat directions anywhere), `origin` = any
+    lower corner of the `WholeExtent`, `L` = the pieces LISTED IN ANY ORDER (a permutation of all piece
+    locations).  From the `Extent` attributes alone `_get_structured_decomposition` recovers
+    * the true cells per piece along every axis, hence the true meshed directions, the true
+      decomposition handed to `StructuredFieldMerger` and the true merged extents;
+    * for every listed piece its true location among the meshed directions;
+    * an `order` / `domain_id` map that is the inverse of the listing: the location of the piece listed
+      at position `i` is inside the `order` array and answers `i`; and every location `ℓ` of the merger
+      is the location of a listed piece — the piece whose extents begin at the `ℓ`-th unique begins —
+      and `domain_id(ℓ)` is the listing position of that piece. -/
+theorem C06_decomposition (d3 : List (List Nat)) (origin : List Int) (L : List (List Nat))
+    (hd : decompOk d3 = true) (hL : L.Perm (locationsIn (piecesShape d3))) :
+    (structuredDecomposition (L.map (pieceExtent d3 origin))).cellsPerAxis = d3.map (·.map Int.ofNat) ∧
+    (structuredDecomposition (L.map (pieceExtent d3 origin))).meshedDimensions = meshedDirs d3 ∧
+    (structuredDecomposition (L.map (pieceExtent d3 origin))).mergerDecomposition = mergerOf d3 ∧
+    (structuredDecomposition (L.map (pieceExtent d3 origin))).mergedExtents =
+      d3.map (fun ns => ((sumList ns : Nat) : Int)) ∧
+    (structuredDecomposition (L.map (pieceExtent d3 origin))).pieceLocations =
+      L.map (restrictLoc (meshedDirs d3)) ∧
+    (∀ i, i < L.length →
+      (structuredDecomposition (L.map (pieceExtent d3 origin))).domainIdChecked
+        (restrictLoc (meshedDirs d3) (L.getD i [])) = some i) ∧
+    (∀ loc ∈ locationsIn (piecesShape (mergerOf d3)), ∃ i, i < L.length ∧
+      restrictLoc (meshedDirs d3) (L.getD i []) = loc ∧
+      (structuredDecomposition (L.map (pieceExtent d3 origin))).domainId loc = i) := by
+  rw [structuredDecomposition_listing d3 origin hd L hL]
+  refine ⟨rfl, sdOf_meshedDimensions d3 L, sdOf_mergerDecomposition d3 L, sdOf_mergedExtents d3 L, rfl,
+    fun i hi => sdOf_domainId d3 hd L hL i hi, ?_⟩
+  intro loc hloc
+  obtain ⟨i, hi, hr⟩ := listing_at d3 hd L hL loc hloc
+  exact ⟨i, hi, hr, by rw [← hr]; exact domainId_of_checked _ _ _ (sdOf_domainId d3 hd L hL i hi)⟩
+
+/-- **C06 (structured parallel file, one field, value level).**  For every decomposition `d3`, every
+    listing order `L` and every extent shift: if the piece listed at position `i` carries the
+    restriction of one global field `G` to its entities (single-valued data), `_merge_point_fields` /
+    `_merge_cell_fields` of the parallel reader — decomposition recovery, `domain_id` lookup and
+    `StructuredFieldMerger` together — return exactly the whole field. -/
+theorem C06_structured_fields {α} (isPoint : Bool) (d3 : List (List Nat)) (origin : List Int)
+    (L : List (List Nat)) (hd : decompOk d3 = true) (hL : L.Perm (locationsIn (piecesShape d3)))
+    (G : Nat → α) (pieceValues : List (List α)) (zero : α)
+    (hv : ∀ i, i < L.length → pieceValues.getD i [] =
+      restrictField isPoint (mergerOf d3) G (restrictLoc (meshedDirs d3) (L.getD i []))) :
+    pvtkMergeField isPoint (L.map (pieceExtent d3 origin)) pieceValues zero =
+      wholeField (prodShape (mergedShape isPoint (mergerOf d3))) G :=
+  pvtkMergeField_listing isPoint d3 origin hd L hL G pieceValues zero hv
+
+/-- **C06 (rectilinear ordinates of the merged grid).**  `W` = the three ordinate arrays of the whole
+    grid (a flat direction has one ordinate); the piece listed at position `i` carries, along every
+    direction, its part `pieceOrdinates` of them (both end points).  Then for every decomposition,
+    listing order and extent shift `PVTRReader._make_structured_mesh` (fixed code 444374c) assembles
+    exactly `W` — no assumption about which pieces are consulted is left. -/
+theorem C06_pvtr_ordinates (d3 : List (List Nat)) (origin : List Int) (L : List (List Nat))
+    (hd : decompOk d3 = true) (hL : L.Perm (locationsIn (piecesShape d3)))
+    (W : List (List Int)) (hW3 : W.length = 3)
+    (hW : ∀ dir, dir < 3 → (W.getD dir []).length = sumList (d3.getD dir []) + 1)
+    (pieceOrds : List (List (List Int)))
+    (hpo : ∀ i, i < L.length → ∀ dir, dir < 3 → (pieceOrds.getD i []).getD dir [] =
+      pieceOrdinates (W.getD dir []) (d3.getD dir []) ((L.getD i []).getD dir 0)) :
+    pvtrOrdinates (structuredDecomposition (L.map (pieceExtent d3 origin))) pieceOrds = some W := by
+  rw [structuredDecomposition_listing d3 origin hd L hL]
+  exact pvtrOrdinates_listing d3 hd L hL W hW3 hW pieceOrds hpo
+
+/-- **C06 (image grid of the merged `.pvti`).**  For every decomposition, listing order and lower
+    corner `origin` of the `WholeExtent`, and every `Origin` / `Spacing` / `Direction` attributes
+    `O`, `S`, `B` (those of the first listed piece): `PVTIReader._make_structured_mesh` (fixed code
+    110e1da) builds exactly the grid `VTIReader._make_mesh` (a3961d2) builds for the whole file —
+    the same cells per direction, the same spacing and basis, and the same origin
+    `O + B·(S ∘ lower)`, because the lowest structured index of all pieces is the lower end of the
+    whole extent. -/
+theorem C06_pvti_mesh (U : Nat) (d3 : List (List Nat)) (origin : List Int) (L : List (List Nat))
+    (hd : decompOk d3 = true) (hL : L.Perm (locationsIn (piecesShape d3)))
+    (O S : List Int) (B : List (List Int)) :
+    pvtiMesh U (structuredDecomposition (L.map (pieceExtent d3 origin))) (L.map (pieceExtent d3 origin)) O S B =
+      some (vtiMesh U (wholeExtent d3 origin) O S B) := by
+  rw [structuredDecomposition_listing d3 origin hd L hL]
+  exact pvtiMesh_listing U d3 origin hd L hL O S B
+
+/-- **C06 (points of the merged `.pvts`).**  `p` = the points of the whole structured grid; the piece
+    listed at position `i` carries its points.  `PVTSReader._make_structured_mesh` returns `p`. -/
+theorem C06_pvts_points (d3 : List (List Nat)) (origin : List Int) (L : List (List Nat))
+    (hd : decompOk d3 = true) (hL : L.Perm (locationsIn (piecesShape d3))) (p : List (List Int))
+    (hp : p.length = prodShape (mergedShape true (mergerOf d3))) :
+    pvtsPoints (L.map (pieceExtent d3 origin))
+      (L.map fun loc3 => (pieceEntityIndices true (mergerOf d3) (restrictLoc (meshedDirs d3) loc3)).map
+        (p.getD · [])) = p :=
+  pvtsPoints_listing d3 origin hd L hL p hp
+
+/-- **C06 (structured parallel file = the whole file).**  `w` = any whole `.vti` / `.vtr` / `.vts`
+    file over a lattice (`wholeOk`: extent, geometry arrays of matching size, distinct field names,
+    data arrays of matching length — any dtypes, any entry shapes), `d3` = ANY axis-aligned
+    decomposition of it, `L` = the pieces listed in ANY order, `pieceFile w d3 origin loc3` = the
+    piece file at `loc3` (its extent, its part of the geometry, its rows of every data array).
+    Reading the parallel file (`_merge_structured`: decomposition recovery, field merging, mesh
+    assembly) yields exactly what the whole file reads as: the same mesh (`C06_pvti_mesh`,
+    `C06_pvtr_ordinates`, `C06_pvts_points`), and every point and cell data array identical in
+    dtype, shape and values (`C06_structured_merge` under the recovered `domain_id`). -/
+theorem C06_structured (U : Nat) (w : SFile) (d3 : List (List Nat)) (origin : List Int) (L : List (List Nat))
+    (hd : decompOk d3 = true) (hL : L.Perm (locationsIn (piecesShape d3)))
+    (hw : wholeOk w d3 origin = true) :
+    pvtkReadStructured U (L.map (pieceFile w d3 origin)) = some (wholeRead U w) :=
+  pvtkReadStructured_listing U w d3 origin hd L hL hw
 
 end Fc
